@@ -29,6 +29,7 @@ import (
 	"strings"
 	"sync"
 	"sync/atomic"
+	"syscall"
 	"testing"
 	"time"
 
@@ -39,19 +40,19 @@ import (
 // report
 
 type vc01Report struct {
-	Property    string         `json:"property"`
-	Tier        string         `json:"tier"`
-	Seed        int64          `json:"seed"`
-	Evaluations int64          `json:"evaluations"`
-	Distinct    int64          `json:"distinct_nontrivial"`
-	Bound       string         `json:"bound"`
-	FailCount   int            `json:"failure_count"`
-	ByCategory  map[string]int `json:"by_category"`
-	Failures    []string       `json:"failures"`
-	Samples     []string       `json:"samples"`
+	Property    string           `json:"property"`
+	Tier        string           `json:"tier"`
+	Seed        int64            `json:"seed"`
+	Evaluations int64            `json:"evaluations"`
+	Distinct    int64            `json:"distinct_nontrivial"`
+	Bound       string           `json:"bound"`
+	FailCount   int              `json:"failure_count"`
+	ByCategory  map[string]int   `json:"by_category"`
+	Failures    []string         `json:"failures"`
+	Samples     []string         `json:"samples"`
 	Domains     map[string]int64 `json:"domains,omitempty"`
-	Timing      []string       `json:"timing,omitempty"`
-	Notes       []string       `json:"notes,omitempty"`
+	Timing      []string         `json:"timing,omitempty"`
+	Notes       []string         `json:"notes,omitempty"`
 }
 
 func vc01WriteReport(rep *vc01Report) {
@@ -273,6 +274,11 @@ func vc01Marker(s string) (string, string) {
 
 type vc01Finding struct{ cat, msg string }
 
+type vc01Batch struct {
+	ncfg  int
+	items []string
+}
+
 type vc01Stats struct {
 	trees    int64 // inputs for which Parse returned a tree under at least one option
 	jsonErrs int64
@@ -287,13 +293,13 @@ func vc01Abbrev(in string) string {
 }
 
 // vc01Check checks the statement of C01 on one input under every option.
-func vc01Check(in string, st *vc01Stats) (out []vc01Finding) {
+func vc01Check(in string, st *vc01Stats, ncfg int) (out []vc01Finding) {
 	markerApplies := !strings.Contains(in, "%!")
 	if !markerApplies && st != nil {
 		st.skipped++
 	}
 	gotTree := false
-	for ci := range vc01Cfgs {
+	for ci := 0; ci < ncfg && ci < len(vc01Cfgs); ci++ {
 		cfg := &vc01Cfgs[ci]
 		var r vc01Res
 		for stage := 0; stage < vc01NStages; stage++ {
@@ -348,9 +354,9 @@ var vc01ByteAlphabet = []string{
 	";", "\x00", "\xff", "\xc3", "\x80",
 }
 
-// reduced alphabet for one more symbol of length in the thorough tier
+// reduced alphabet (24 symbols) for one more symbol of length
 var vc01ByteAlphabetSmall = []string{
-	"a", "1", "\u00e9", "*", "\\", ".", "-", " ", "\"", "/", "(", ")", "[", "]", ":", "+", "<", "=", "~", "^", "\xff", "\x00",
+	"a", "1", "\u00e9", "*", "\\", ".", "-", " ", "\"", "'", "/", "(", ")", "[", "]", "{", ":", "+", "<", "=", "~", "^", "\xff", "\x00",
 }
 
 // token vocabulary (joined by single spaces)
@@ -358,6 +364,24 @@ var vc01Tokens = []string{
 	"a", "1", "-1", "1.5", "NaN", `"q r"`, `'s'`, "/re/", "w*", "*", "?", `\(`,
 	"AND", "OR", "NOT", "TO",
 	"(", ")", "[", "]", "{", "}", ":", "+", "-", "=", ">", "<", "~", "^",
+}
+
+// reduced token vocabulary (24 tokens) for one more token of length
+var vc01TokensSmall = []string{
+	"a", "1", "-1", `"q r"`, "/re/", "w*", "*",
+	"AND", "OR", "NOT", "TO",
+	"(", ")", "[", "]", "{", "}", ":", "+", "-", "=", ">", "~", "^",
+}
+
+// reduced chunk vocabulary (30 chunks) for one more chunk of length
+var vc01ChunksSmall = []string{
+	"a:b", "a:1", `a:"q r"`, "a:/re/", "a:w*", "a:*",
+	"a:[1 TO 5]", "a:{* TO 5}", `a:["x" TO "y, z"]`, "a:[b TO c]",
+	"a:(1 OR 2)", `a:("p q" OR 2)`, "a:(b AND c)",
+	"a:>1", "a:<=1.5",
+	"b~2", "b^2", "a:b~", `"p q"~3`,
+	"b", "1", `"q"`, "*",
+	"AND", "OR", "NOT", "(", ")", "+", "-",
 }
 
 // chunk vocabulary: whole clauses plus connectors, to reach the deeper trees (ranges, lists,
@@ -517,6 +541,15 @@ const (
 	vc01Growth1     = 5.0                   // and time(4n)/time(2n): 4 is quadratic, 8 is cubic
 )
 
+// vc01CPU returns the CPU time consumed by the process so far.
+func vc01CPU() time.Duration {
+	var ru syscall.Rusage
+	if syscall.Getrusage(syscall.RUSAGE_SELF, &ru) != nil {
+		return 0
+	}
+	return time.Duration(ru.Utime.Nano() + ru.Stime.Nano())
+}
+
 // vc01Cap is the generous absolute bound for one call on n tokens: quadratic, 60s at 10^4 tokens.
 func vc01Cap(n int) time.Duration {
 	f := float64(n) / 10000
@@ -649,7 +682,7 @@ func vc01Growth(ts []time.Duration) (flag bool, desc string) {
 // shrinking (only used for failures found by sampling / long shapes)
 
 func vc01HasCat(in, cat string) bool {
-	for _, f := range vc01Check(in, nil) {
+	for _, f := range vc01Check(in, nil, len(vc01Cfgs)) {
 		if f.cat == cat {
 			return true
 		}
@@ -705,11 +738,10 @@ func TestVerifStandin_C01(t *testing.T) {
 	rep.ByCategory = map[string]int{}
 	rep.Failures = nil
 
-	byteLen, tokLen, chunkLen, nRandom := 4, 4, 3, 120000
-	smallByteLen := 4
+	// full vocabularies up to length L, reduced vocabularies at length L+1
+	byteLen, tokLen, chunkLen, nRandom := 3, 3, 2, 100000
 	if tier == "thorough" {
-		byteLen, tokLen, chunkLen, nRandom = 4, 5, 4, 1500000
-		smallByteLen = 6
+		byteLen, tokLen, chunkLen, nRandom = 4, 4, 3, 1500000
 	}
 
 	t0 := time.Now()
@@ -727,7 +759,7 @@ func TestVerifStandin_C01(t *testing.T) {
 	aggs := make([]*vc01Agg, workers)
 	stats := make([]vc01Stats, workers)
 	evals := make([]int64, workers)
-	batches := make(chan []string, 4*workers)
+	batches := make(chan vc01Batch, 4*workers)
 	var stop atomic.Bool
 	var wg sync.WaitGroup
 	for w := 0; w < workers; w++ {
@@ -739,11 +771,11 @@ func TestVerifStandin_C01(t *testing.T) {
 				if stop.Load() {
 					continue
 				}
-				for i := range b {
-					in := b[i]
-					slots[w].cur.Store(&b[i])
+				for i := range b.items {
+					in := b.items[i]
+					slots[w].cur.Store(&b.items[i])
 					slots[w].since.Store(time.Now().UnixNano())
-					fs := vc01Check(in, &stats[w])
+					fs := vc01Check(in, &stats[w], b.ncfg)
 					evals[w]++
 					if len(fs) > 0 {
 						seen := map[string]bool{}
@@ -792,7 +824,14 @@ func TestVerifStandin_C01(t *testing.T) {
 	var produced int64
 	cur := make([]string, 0, 1024)
 	domain := ""
+	ncfg := 2
 	var domainCount int64
+	flush := func() {
+		if len(cur) > 0 {
+			batches <- vc01Batch{ncfg, cur}
+			cur = make([]string, 0, 1024)
+		}
+	}
 	emit := func(s string) {
 		produced++
 		domainCount++
@@ -801,13 +840,16 @@ func TestVerifStandin_C01(t *testing.T) {
 		}
 		cur = append(cur, s)
 		if len(cur) == cap(cur) {
-			batches <- cur
-			cur = make([]string, 0, 1024)
+			flush()
 		}
 	}
-	endDomain := func() {
-		rep.Domains[domain] = domainCount
-		domainCount = 0
+	// begin a domain; options = 2: {none, "f"}, 3: also the hostile default field name
+	begin := func(name string, options int) {
+		flush()
+		if domain != "" {
+			rep.Domains[domain] = domainCount
+		}
+		domain, domainCount, ncfg = name, 0, options
 	}
 
 	producerDone := make(chan struct{})
@@ -815,35 +857,32 @@ func TestVerifStandin_C01(t *testing.T) {
 		defer close(producerDone)
 		defer close(batches)
 
-		domain = "empty-and-whitespace"
+		begin("empty-and-whitespace", 3)
 		for _, s := range []string{"", " ", "\t", "\n", "\r\n", "  \t "} {
 			emit(s)
 		}
-		endDomain()
 
-		domain = fmt.Sprintf("byte-strings<=%d-over-%d-symbols", byteLen, len(vc01ByteAlphabet))
+		begin(fmt.Sprintf("byte-strings<=%d-over-%d-symbols", byteLen, len(vc01ByteAlphabet)), 2)
 		vc01Enumerate(vc01ByteAlphabet, "", 1, byteLen, emit)
-		endDomain()
+		begin(fmt.Sprintf("byte-strings=%d-over-%d-symbols", byteLen+1, len(vc01ByteAlphabetSmall)), 2)
+		vc01Enumerate(vc01ByteAlphabetSmall, "", byteLen+1, byteLen+1, emit)
 
-		domain = fmt.Sprintf("byte-strings=%d..%d-over-%d-symbols", byteLen+1, smallByteLen, len(vc01ByteAlphabetSmall))
-		vc01Enumerate(vc01ByteAlphabetSmall, "", byteLen+1, smallByteLen, emit)
-		endDomain()
-
-		domain = fmt.Sprintf("token-sequences<=%d-over-%d-tokens", tokLen, len(vc01Tokens))
+		begin(fmt.Sprintf("token-sequences<=%d-over-%d-tokens", tokLen, len(vc01Tokens)), 2)
 		vc01Enumerate(vc01Tokens, " ", 1, tokLen, emit)
-		endDomain()
+		begin(fmt.Sprintf("token-sequences=%d-over-%d-tokens", tokLen+1, len(vc01TokensSmall)), 2)
+		vc01Enumerate(vc01TokensSmall, " ", tokLen+1, tokLen+1, emit)
 
-		domain = fmt.Sprintf("chunk-sequences<=%d-over-%d-chunks", chunkLen, len(vc01Chunks))
+		begin(fmt.Sprintf("chunk-sequences<=%d-over-%d-chunks", chunkLen, len(vc01Chunks)), 3)
 		vc01Enumerate(vc01Chunks, " ", 1, chunkLen, emit)
-		endDomain()
+		begin(fmt.Sprintf("chunk-sequences=%d-over-%d-chunks", chunkLen+1, len(vc01ChunksSmall)), 3)
+		vc01Enumerate(vc01ChunksSmall, " ", chunkLen+1, chunkLen+1, emit)
 
-		domain = "clause-templates"
+		begin("clause-templates", 3)
 		vc01Templates(emit)
-		endDomain()
 
 		// seeded sampling beyond the bounds
 		rng := rand.New(rand.NewSource(seed))
-		domain = "random-bytes"
+		begin("random-bytes", 3)
 		for i := 0; i < nRandom; i++ {
 			n := 1 + rng.Intn(24)
 			b := make([]byte, n)
@@ -866,9 +905,7 @@ func TestVerifStandin_C01(t *testing.T) {
 				emit(sb.String())
 			}
 		}
-		endDomain()
-
-		domain = "random-token-sequences"
+		begin("random-token-sequences", 3)
 		all := append(append([]string{}, vc01Tokens...), vc01Chunks...)
 		all = append(all, vc01Values...)
 		for i := 0; i < nRandom; i++ {
@@ -882,11 +919,7 @@ func TestVerifStandin_C01(t *testing.T) {
 			}
 			emit(sb.String())
 		}
-		endDomain()
-
-		if len(cur) > 0 {
-			batches <- cur
-		}
+		begin("", 0)
 	}()
 
 	workersDone := make(chan struct{})
@@ -924,7 +957,7 @@ func TestVerifStandin_C01(t *testing.T) {
 	}
 
 	// ---- phase 2: adversarial long shapes, timing ------------------------------------------
-	phase1Dur := time.Since(t0)
+	phase1Dur, phase1CPU := time.Since(t0), vc01CPU()
 	t1 := time.Now()
 	if !hung {
 		budget, abandon, reps := 250*time.Millisecond, 20*time.Second, 2
@@ -1043,7 +1076,7 @@ func TestVerifStandin_C01(t *testing.T) {
 			budget, maxTokens[0], maxTokens[1], maxTokens[2], maxTokens[3], maxTokens[4], maxTokens[5]))
 		rep.Domains[fmt.Sprintf("long-shapes-%d-families-x-%d-options-at-%v-tokens", len(vc01Families), ncfg, vc01Sizes)] = int64(len(ladders))
 	}
-	phase2Dur := time.Since(t1)
+	phase2Dur, phase2CPU := time.Since(t1), vc01CPU()-phase1CPU
 
 	// ---- shrink what was only found beyond the exhaustive bounds ----------------------------
 	if !hung {
@@ -1056,7 +1089,7 @@ func TestVerifStandin_C01(t *testing.T) {
 			}
 			small := vc01Shrink(fs[0].in, cat, 2*time.Second)
 			if len(small) < len(fs[0].in) {
-				for _, f := range vc01Check(small, nil) {
+				for _, f := range vc01Check(small, nil, len(vc01Cfgs)) {
 					if f.cat == cat {
 						total.add(cat, small, "["+cat+"] "+f.msg, 0)
 						break
@@ -1092,17 +1125,17 @@ func TestVerifStandin_C01(t *testing.T) {
 		samples = s2
 	}
 	rep.Samples = samples
-	rep.Bound = fmt.Sprintf("every input x %d default-field options (none, \"f\", a hostile name) x {Parse, ToPostgres, ToParameterizedPostgres, String, %%#v, json.Marshal}; inputs: "+
-		"all byte strings of <=%d symbols over a %d-symbol alphabet covering every token-start class (ASCII/2-byte letters and digits, wildcards, escape, all operator symbols, quotes, slash, NUL, invalid UTF-8 bytes, a non-token character) and of %d..%d symbols over a %d-symbol sub-alphabet; "+
-		"all sequences of <=%d tokens over %d token kinds; all sequences of <=%d chunks over %d clauses/connectors; %d-value clause templates (ranges, lists, comparisons, fuzzy, boost); "+
-		"%d seeded random byte strings (<=24 bytes) and %d random token sequences (5..14 items); %d adversarial shape families at %v tokens with timing. "+
+	rep.Bound = fmt.Sprintf("every input x default-field options {none, \"f\"} (and a hostile name with quote, space and wildcard on the chunk, template, random and long-shape... see domains) x {Parse, ToPostgres, ToParameterizedPostgres, String, %%#v, json.Marshal}; inputs: "+
+		"all byte strings of <=%d symbols over a %d-symbol alphabet covering every token-start class (ASCII and 2-byte letters and digits, wildcards, escape, every operator symbol, both quotes, slash, dot, minus, space, NUL, three invalid UTF-8 bytes, a non-token character) and all of %d symbols over a %d-symbol sub-alphabet; "+
+		"all sequences of <=%d tokens over %d token kinds and all of %d tokens over %d kinds; all sequences of <=%d chunks (whole clauses and connectors) over %d chunks and all of %d over %d; clause templates over %d values (ranges, lists, comparisons, fuzzy, boost, field position); "+
+		"%d seeded random byte strings (<=24 bytes: raw bytes, printable ASCII, class alphabet) and %d random token/chunk sequences (5..14 items); %d adversarial shape families (deep nesting, long operator chains, operator-only, unbalanced brackets, long tokens) at %v tokens with timing. "+
 		"distinct_nontrivial = inputs for which Parse returned a tree under at least one option, so that all six operations ran (enumerated strings are pairwise distinct within a domain; cross-domain overlap is below 0.1%%)",
-		len(vc01Cfgs), byteLen, len(vc01ByteAlphabet), byteLen+1, smallByteLen, len(vc01ByteAlphabetSmall), tokLen, len(vc01Tokens), chunkLen, len(vc01Chunks), len(vc01Values), nRandom, nRandom, len(vc01Families), vc01Sizes)
+		byteLen, len(vc01ByteAlphabet), byteLen+1, len(vc01ByteAlphabetSmall), tokLen, len(vc01Tokens), tokLen+1, len(vc01TokensSmall), chunkLen, len(vc01Chunks), chunkLen+1, len(vc01ChunksSmall), len(vc01Values), nRandom, nRandom, len(vc01Families), vc01Sizes)
 	rep.Notes = append(rep.Notes,
 		fmt.Sprintf("json.Marshal returned an error (a normal return, not a failure) for %d input/option pairs (NaN/Inf values, nesting deeper than encoding/json allows)", jsonErrs),
 		fmt.Sprintf("%d inputs contain \"%%!\" themselves; the marker check does not apply to them", skipped),
 		"growth rule: an operation is measured at 312,625,...,10000 tokens while one call stays within the per-call budget; flagged when, at the three largest sizes n,2n,4n measured, time(4n) >= 60ms, time(4n)/time(n) > 36 and time(4n)/time(2n) > 5, and a second measurement without concurrent load confirms; absolute cap per call 1s + 60s*(n/10^4)^2",
-		fmt.Sprintf("wall time: short inputs %v, long shapes %v", phase1Dur.Round(time.Millisecond), phase2Dur.Round(time.Millisecond)),
+		fmt.Sprintf("short inputs: wall %v cpu %v; long shapes: wall %v cpu %v (%d workers)", phase1Dur.Round(time.Millisecond), phase1CPU.Round(time.Millisecond), phase2Dur.Round(time.Millisecond), phase2CPU.Round(time.Millisecond), workers),
 	)
 	vc01WriteReport(rep)
 
